@@ -357,7 +357,7 @@ def run(chk, tier):
             t_ = [v for v in dd.get('discr(%s)' % tp, []) if not isinstance(v, tuple)]
             m_ = [v for v in dd.get('discr(%s)' % ms, []) if not isinstance(v, tuple)]
             val2 = val.replace('field:0(%s)' % sp, 'SRC').replace('field:0(%s)' % tp, 'DST')
-            val2 = re.sub(r'unwrap\(call:config::validate_source_port\(SRC\)\)', 'SRC', val2)
+            val2 = re.sub(r'field:0\(call:config::validate_source_port\(SRC\)\)', 'SRC', val2)
             got[(pn, s_[-1] if s_ else None, t_[-1] if t_ else None, m_[-1] if m_ else None)] = (val2, any(e[0] == 'call' and e[1].endswith('validate_source_port') for e in ev))
         exits = [[(vshow(a), v) for a, v, _ in o.st.decisions[r.base_decisions:]] for o in r.exits]
         want = {('Icmp', None, None, None): 'PortDirection::None',
@@ -553,7 +553,7 @@ def run(chk, tier):
         v = mins.get(m.group(1)) if m else None
         return (v, v)
     hints = [(r'(^|\.)ttl(\.0)?$', 1, MAXTTL + 1), (r'first_ttl(\.0)?$', 1, MAXTTL), (r'max_ttl(\.0)?$', 0, MAXTTL), (r'initial_sequence(\.0)?$', 0, MAXINIT),
-             (r'max_received_ttl#Some\.0(\.0)?$|target_ttl#Some\.0(\.0)?$', 0, MAXTTL), (r'^call:\w+::minimum_packet_size\(\)$', min_size, None), (r'^call:NonZero::get\(', 1, None)]
+             (r'^field:0\(.*(max_received_ttl|target_ttl)\)(\.0)?$', 0, MAXTTL), (r'^call:\w+::minimum_packet_size\(\)$', min_size, None), (r'^call:NonZero::get\(', 1, None)]
     chk.assumptions += ['view minimum sizes = RFC minimum header sizes (C12)', 'builder ranges: 1 ≤ first_ttl ≤ MAX_TTL, max_ttl ≤ MAX_TTL, initial_sequence ≤ MAX_INITIAL_SEQUENCE (R5)',
                         'state machine: round_sequence ≤ sequence, initial_sequence ≤ sequence (C07.R2 / R5, imported)']
 
